@@ -175,6 +175,20 @@ pub fn dispatch(op: &str, req: &Value) -> Option<String> {
                 o.push_str(&format!(",\"eq\":{}", a == b));
                 o.push_str(&format!(",\"slice\":{}", guard(|| jstr(&text[a]))));
                 o.push_str(&format!(",\"slice_string\":{}", guard(|| jstr(&text.to_string()[a]))));
+                {
+                    // the std-facing view of the range (impl RangeBounds<TextSize>): what generic code and BTreeMap::range see
+                    use std::ops::{Bound, RangeBounds};
+                    let b2 = |b: Bound<&TextSize>| match b {
+                        Bound::Included(x) => format!("[\"included\",{}]", u32::from(*x)),
+                        Bound::Excluded(x) => format!("[\"excluded\",{}]", u32::from(*x)),
+                        Bound::Unbounded => "[\"unbounded\",0]".to_string(),
+                    };
+                    o.push_str(&format!(",\"start_bound\":{},\"end_bound\":{}", b2(a.start_bound()), b2(a.end_bound())));
+                    o.push_str(&format!(",\"range_bounds_contains\":{}", RangeBounds::contains(&a, &off)));
+                    let set: std::collections::BTreeSet<TextSize> = [a0, a1, b0, b1, u32::from(off)].iter().map(|x| TextSize::from(*x)).collect();
+                    let inside: Vec<String> = set.range(a).map(|x| u32::from(*x).to_string()).collect();
+                    o.push_str(&format!(",\"btree_range\":[{}]", inside.join(",")));
+                }
                 let std_r: std::ops::Range<u32> = a.into();
                 o.push_str(&format!(",\"into_range\":[{},{}]", std_r.start, std_r.end));
                 o.push_str(&format!(",\"from_range\":{}", rng(TextRange::from(TextSize::from(a0)..TextSize::from(a1)))));
